@@ -3,7 +3,7 @@ import HeartwoodModel.Driver.Util
 /-! Driver entry for C09.
 
 A case is the annotated script written by the harness (see `harness/c09/src/main.rs`). The driver reads
-the annotations (`@ok:K:id=obj`, `@fail`, `@rm:K:id=obj|-`, `@f:changes|refs`, `@pool:ids`) and the cache
+the annotations (`@ok:K:id=obj`, `@fail`, `@rm:K:id=obj|-`, `@f:changes|refs`, `@x:changes`, `@pool:ids`) and the cache
 maintenance tokens (`w.P`, `iw.I`, `wa`, `iwa`); the other script tokens only say which Rust API produced
 the annotation that follows them. For every `@pool` it prints the answers of every query on the model's
 cache and on the model's truth: `<cached>` or `<cached>!<direct>`. -/
@@ -159,6 +159,13 @@ def stepTok (s : St) (tok : String) : Option St :=
       let irs := rs.filterMap fun r => if r.1 then none else some r.2
       some (istep (pstep s (.fetched pch prs)) (.fetched ich irs))
     | _ => none
+  else if tok.startsWith "@x:" then
+    -- changes of the repository that no cache write follows
+    let chg := (tok.drop 3).toString
+    (if chg == "-" then some [] else (splitOn chg '&').mapM kbinding?).map fun chgs =>
+      let pch := chgs.filterMap fun c => match c with | .inl x => some x | .inr _ => none
+      let ich := chgs.filterMap fun c => match c with | .inr x => some x | .inl _ => none
+      istep (pstep s (.external pch)) (.external ich)
   else if tok.startsWith "@pool:" then
     let pool := splitOn ((tok.drop 6).toString) ','
     some { s with outs := query s pool :: s.outs }
@@ -168,7 +175,7 @@ def stepTok (s : St) (tok : String) : Option St :=
   else if tok == "iwa" then some (istep s .rewriteAll)
   else if tok.startsWith "w." then some (pstep s (.rewrite ((tok.drop 2).toString)))
   else if tok.startsWith "iw." then some (istep s (.rewrite ((tok.drop 3).toString)))
-  else if tok.startsWith "f:" || tok.startsWith "f!:" then some s
+  else if tok.startsWith "f:" || tok.startsWith "f!:" || tok.startsWith "x:" then some s
   else
     match splitOn tok '.' with
     | h :: _ => if scriptOps.contains h then some s else none
